@@ -149,6 +149,31 @@ def inverse(ctx, shard, nshards):
                 V.add("%s:%s" % (tagk, f[0]), {"a": a_txt, "b": l, "fmt": fmt, "us": order, "knd": kind,
                                                 "A": list(A), "B": list(bv), "kind": "inv"},
                       expected=f[1], actual=f[2], weight=abs(ta - tb))
+        # the literal round trip through the tools: what ddiff printed, given to dadd with the earlier
+        # value, lands on the later one - in ISO spelling and with both values as seconds since the epoch
+        if kind == "fixed":
+            UN = {"w": "w", "d": "d", "H": "h", "M": "m", "S": "s"}
+            for j in sorted(set((0, len(lines) // 3, 2 * len(lines) // 3))):
+                pz = G.parse_output(out[j], order)
+                if pz is None or not set(order) <= set(UN) or max(pz[0].values()) > 2 ** 31 - 1:
+                    continue          # (dadd takes counts up to 2^31-1)
+                ta, tb = A[0] * 86400 + A[1], Bs[j][0] * 86400 + Bs[j][1]
+                lo, hi = (A, Bs[j]) if ta <= tb else (Bs[j], A)
+                durs = ["+%d%s" % (pz[0][u], UN[u]) for u in order if pz[0][u]] or ["+0s"]
+                finest = max(order, key=lambda u: G.RANK[u])
+                if (hi[0] * 86400 + hi[1] - lo[0] * 86400 - lo[1]) % G.SECS[finest]:
+                    continue          # the format is coarser than the pair needs
+                routes = [("iso", [], G.dt(lo[0], lo[1], with_time, rep), G.dt(hi[0], hi[1], with_time, rep))]
+                elo, ehi = R.epoch(lo[0], lo[1]), R.epoch(hi[0], hi[1])
+                if with_time and abs(elo) < 9 * 10 ** 9 and abs(ehi) < 9 * 10 ** 9:
+                    routes.append(("epoch", ["-i", "%s", "-f", "%s"], "%d" % elo, "%d" % ehi))
+                for rname, ra, tlo, thi in routes:
+                    r = run_args(ctx.build, "dadd", ra + ["--", tlo] + durs)
+                    o = (r.lines() or [""])[0]
+                    sub.evaluations += 1
+                    if r.crashed or o != thi:
+                        V.add("trip:%s:%s" % (rname, tagk), {"lo": tlo, "hi": thi, "durs": durs, "ra": ra, "kind": "trip"},
+                              expected=thi, actual=r.brief() if r.crashed else o)
         # both operands as arguments (own code path in main()): two of the pairs
         for j in sorted(set((0, len(lines) // 2))):
             r = run_args(ctx.build, "ddiff", ["-f", fmt, "--", a_txt, lines[j]])
@@ -185,6 +210,11 @@ def replay(ctx, subname, case):
         except BatchError as e:
             return {"detail": str(e), "result": e.result.brief()}
         return None
+    if case["kind"] == "trip":
+        r = run_args(ctx.build, "dadd", case["ra"] + ["--", case["lo"]] + case["durs"])
+        o = (r.lines() or [""])[0]
+        return None if (o == case["hi"] and not r.crashed) else {"from": case["lo"], "durs": case["durs"],
+                                                                "expected": case["hi"], "actual": o}
     if case.get("route") == "arg":
         r = run_args(ctx.build, "ddiff", ["-f", case["fmt"], "--", case["a"], case["b"]])
         if r.crashed:
